@@ -90,6 +90,11 @@ def run(ck):
         lam = float(rr.choice([1e-3, 1e-1, 1.0]))
         if i % 7 == 5 and dtype == torch.float64:
             lam = [1e-9, 1e-10, 1e-7][(i // 7) % 3]          # a very small requested regularisation is the requested regularisation all the same
+        # a wall-clock budget that runs out after the first round (time_limit_s = 0): the fit stops early for a reason that has nothing to do with the scores,
+        # the stored coefficients must still have been solved with the stored feature matrix and bandwidth
+        timed_out = (i % 9 == 4)
+        if timed_out:
+            iters = 3; rb = bool((i // 9) % 2); early = False
         n = int(rr.integers(5, 11)) if i % 2 == 0 else int(rr.integers(12, 40))
         d = int(rr.integers(2, 5)); nout = int(rr.integers(1, 3))
         exponent = float(rr.choice([1.0, 1.2, 0.8]))
@@ -98,10 +103,10 @@ def run(ck):
         Xv = torch.tensor(rr.standard_normal((15, d)), dtype=dtype)
         Yv = torch.tensor(rr.standard_normal((15, nout)), dtype=dtype)
         desc = dict(i=i, kernel=kern, solver=solver, dtype=str(dtype), diag=diag, bw=bwmode, iters=iters, early=early, rb=rb, lam=lam, n=n, d=d,
-                    nout=nout, exponent=exponent, agop_best=bool((i // 5) % 2), seed=ck.seed)
+                    nout=nout, exponent=exponent, agop_best=bool((i // 5) % 2), timed_out=timed_out, seed=ck.seed)
         xr.seed_all(2200 + i + ck.seed)
         m = xr.RealRFM(kernel=kern, iters=iters, bandwidth=2.0, exponent=exponent, bandwidth_mode=bwmode, device='cpu', diag=diag,
-                       verbose=False, tuning_metric='mse', **extra)
+                       verbose=False, tuning_metric='mse', **(dict(time_limit_s=0.0) if timed_out else {}), **extra)
         log = []
         try:
             with solver_log(log), xr.quiet():
